@@ -525,7 +525,9 @@ func (p *Program) loopMods(x *Exec, fr *Frame, h *ssa.BasicBlock) ([]string, []s
 				p.directCall(d, in.Common(), add)
 				if fr.depth == 0 && fr.contract != nil {
 					var names []string
-					if callee := in.Common().StaticCallee(); callee != nil {
+					if _, isGo := in.(*ssa.Go); isGo {
+						names = []string{"go"}
+					} else if callee := in.Common().StaticCallee(); callee != nil {
 						names = calleeNames(callee)
 					} else if in.Common().IsInvoke() {
 						names = []string{in.Common().Method.Name()}
